@@ -494,7 +494,7 @@ func ruleIndent(c *Ctx) {
 		l.add("R-INDENT", "v5", "anchor apply function", "", Undecided, "apply function not found", false)
 		return
 	}
-	fn := ai.fn
+	fn := b.encodeFnOf(ai)
 	var marsh, indent *ssa.Call
 	nMarsh := 0
 	allInstrs(fn, func(i ssa.Instruction) {
